@@ -42,7 +42,7 @@ if os.path.abspath(sd).startswith(os.path.join(V, "seeded") + os.sep):
 old_meta = {}
 if os.path.exists(os.path.join(dst, "meta.json")):
     old_meta = json.load(open(os.path.join(dst, "meta.json")))
-last = os.path.join(V, "out", "last-seed.patch")  # the change as seedcheck applied it to the current HEAD of /repo
+last = os.environ.get("LASTSEED") or os.path.join(V, "out", "last-seed.patch")  # the change as seedcheck applied it to the current HEAD of /repo
 if dst != os.path.abspath(sd):
     shutil.rmtree(dst, ignore_errors=True)
     os.makedirs(dst)
